@@ -4,6 +4,7 @@ pub mod time {
     use vstd::prelude::*;
     verus!{
     pub uninterp spec fn rfc3339_instant(s: Seq<char>) -> Option<int>;
+    pub uninterp spec fn now_spec() -> int;
     pub uninterp spec fn formattable(instant: int) -> bool;       // year within 0..=9999
     pub uninterp spec fn rfc3339_text(instant: int) -> Seq<char>; // what format(&Rfc3339) prints
     pub broadcast axiom fn ax_rfc3339_text_parses(t: int)
@@ -22,9 +23,10 @@ pub mod time {
     }
     impl OffsetDateTime {
         pub uninterp spec fn instant(&self) -> int;
-        // the clock: some instant whose year (also one hour later) is printable
+        // the clock: ONE arbitrary reading now_spec() per verification scenario (no property here relates two readings),
+        // whose year (also one hour later) is printable
         #[verifier::external_body]
-        pub fn now_utc() -> (r: OffsetDateTime) ensures formattable(r.instant()), formattable(r.instant() + 3_600_000_000_000) { unimplemented!() }
+        pub fn now_utc() -> (r: OffsetDateTime) ensures r.instant() == now_spec(), formattable(r.instant()), formattable(r.instant() + 3_600_000_000_000) { unimplemented!() }
         #[verifier::external_body]
         pub fn format(self, f: &format_description::well_known::Rfc3339) -> (r: Result<String, error::Format>)
             ensures formattable(self.instant()) ==> r is Ok && r->Ok_0@ == rfc3339_text(self.instant())
